@@ -30,18 +30,24 @@ var initCmd = &cobra.Command{
 			return errors.New("fail to get current path")
 		}
 		goitDir := filepath.Join(curPath, ".goit")
-		if err := os.Mkdir(goitDir, os.ModePerm); err != nil {
-			return fmt.Errorf("%w: %s", ErrIOHandling, goitDir)
+		// build the repository in a temporary directory and move it into place at the end,
+		// so an interrupted init never leaves a half-initialized .goit directory
+		tmpDir := filepath.Join(curPath, ".goit.tmp")
+		if err := os.RemoveAll(tmpDir); err != nil {
+			return fmt.Errorf("%w: %s", ErrIOHandling, tmpDir)
+		}
+		if err := os.Mkdir(tmpDir, os.ModePerm); err != nil {
+			return fmt.Errorf("%w: %s", ErrIOHandling, tmpDir)
 		}
 
 		// make .goit/config file
-		configFile := filepath.Join(goitDir, "config")
+		configFile := filepath.Join(tmpDir, "config")
 		if _, err := os.Create(configFile); err != nil {
 			return fmt.Errorf("%w: %s", ErrIOHandling, configFile)
 		}
 
 		// make .goit/HEAD file and write main branch
-		headFile := filepath.Join(goitDir, "HEAD")
+		headFile := filepath.Join(tmpDir, "HEAD")
 		f, err := os.Create(headFile)
 		if err != nil {
 			return fmt.Errorf("%w: %s", ErrIOHandling, headFile)
@@ -53,13 +59,13 @@ var initCmd = &cobra.Command{
 		}
 
 		// make .goit/objects directory
-		objectsDir := filepath.Join(goitDir, "objects")
+		objectsDir := filepath.Join(tmpDir, "objects")
 		if err := os.Mkdir(objectsDir, os.ModePerm); err != nil {
 			return fmt.Errorf("%w: %s", ErrIOHandling, objectsDir)
 		}
 
 		// make .goit/refs directory
-		refsDir := filepath.Join(goitDir, "refs")
+		refsDir := filepath.Join(tmpDir, "refs")
 		if err := os.Mkdir(refsDir, os.ModePerm); err != nil {
 			return fmt.Errorf("%w: %s", ErrIOHandling, refsDir)
 		}
@@ -74,6 +80,11 @@ var initCmd = &cobra.Command{
 		tagsDir := filepath.Join(refsDir, "tags")
 		if err := os.Mkdir(tagsDir, os.ModePerm); err != nil {
 			return fmt.Errorf("%w: %s", ErrIOHandling, tagsDir)
+		}
+
+		// move the repository into place
+		if err := os.Rename(tmpDir, goitDir); err != nil {
+			return fmt.Errorf("%w: %s", ErrIOHandling, goitDir)
 		}
 
 		// print out message for initialization success
